@@ -109,6 +109,28 @@ class ClassV:
         return None
 
 
+def number_loops(stmts, prefix=''):
+    """static loop numbers: '1', '2', ... in source order among the loops of one nesting level (through if / try / with
+    bodies, not into nested functions), '1.1', '1.2' for the loops inside loop 1."""
+    ctr = [0]
+
+    def visit(sts):
+        for st in sts:
+            if isinstance(st, (ast.For, ast.While)):
+                ctr[0] += 1
+                st._loop_static = prefix + str(ctr[0])
+                number_loops(list(st.body), st._loop_static + '.')
+                visit(st.orelse)            # the else part of a loop runs after it: same nesting level
+            elif isinstance(st, (ast.FunctionDef, ast.ClassDef, ast.AsyncFunctionDef)):
+                continue
+            else:
+                for fld in ('body', 'orelse', 'finalbody'):
+                    visit(getattr(st, fld, []) or [])
+                for h in getattr(st, 'handlers', []) or []:
+                    visit(h.body)
+    visit(stmts)
+
+
 class StarArgs:
     """f(*seq) with a sequence of symbolic length, handed to an assumed external that accepts it"""
 
@@ -304,6 +326,7 @@ class Engine:
         self.attr_hooks = {}
         self.filters = {}
         self.truth_hooks = {}
+        self.setattr_hooks = {}  # (kind, attr) -> fn(engine, value, new): attribute assignment on an abstract object
         self.stmt_ghosts = False
         self.format_hooks = {}
         self.heap = {}            # global ghost state (object heaps) visible to code hooks and to every spec
@@ -663,6 +686,12 @@ class Engine:
                 return False
             if tb == a.ty or (a.ty in (TInt, TReal) and tb in (TInt, TReal, TBool)):
                 return a.e == to_z3(b, a.ty if tb != TReal else None)
+            if isinstance(a.ty, TKey):
+                # an abstract value against a literal: equal iff the literal's image under the declared injection; without
+                # one the engine does not know what the abstract sort stands for and must not guess "different"
+                if (tb.name, a.ty.name) in COERCIONS:
+                    return a.e == to_z3(b, a.ty)
+                raise EngineError('comparison of an abstract %s value with the literal %r (no coercion declared)' % (a.ty, b))
             return False
         # both SV
         if a.ty == b.ty:
@@ -1116,6 +1145,9 @@ class Engine:
         if isinstance(clo.node, ast.Lambda):
             return self.eval(clo.node.body, env)
         env.vars['__locals__'] = assigned_names(clo.node.body)
+        if not getattr(clo.node, '_loops_numbered', False):
+            number_loops(clo.node.body)
+            clo.node._loops_numbered = True
         saved = self.loop_ctr, self.loop_specs
         # inlined callees use their own contract's loop specs if registered as inline specs
         ic = self.inline_specs.get(clo.qualname) if hasattr(self, 'inline_specs') else None
@@ -1494,13 +1526,18 @@ class Engine:
         return [it.get(i) for i in range(n)]
 
     # ------------------------------------------------------------------ loops
-    def next_loop_id(self):
+    def next_loop_id(self, node=None):
+        # loops are numbered statically, in source order per nesting level (number_loops), so that a loop keeps its
+        # number on paths that skip an earlier loop; the dynamic counter is the fallback for unnumbered code
+        sid = getattr(node, '_loop_static', None)
+        if sid is not None:
+            return sid
         self.loop_ctr[-1] += 1
         return '.'.join(str(x) for x in self.loop_ctr)
 
     def exec_For(self, node, env):
         from .builtins import make_iter
-        lid = self.next_loop_id()
+        lid = self.next_loop_id(node)
         itv = make_iter(self, self.eval(node.iter, env))
         if itv.concrete is not None or isinstance(itv.n, int):
             items = itv.concrete if itv.concrete is not None else [itv.get(i) for i in range(itv.n)]
@@ -1530,7 +1567,7 @@ class Engine:
             self.ghost_hook('after:L' + lid, env)
 
     def exec_While(self, node, env):
-        lid = self.next_loop_id()
+        lid = self.next_loop_id(node)
         spec = self.loop_specs.get('L' + lid)
         if spec is None:
             # concrete unrolling as long as the guard is concrete
@@ -1574,6 +1611,9 @@ class Engine:
             env.vars['_i'] = 0
             env.vars['_i' + tag.replace('.', '_')] = 0
             env.vars['_n' + tag.replace('.', '_')] = self.numval(itv.n)
+            # _it<loop>(q): the q-th element of the traversal (e.g. of the arbitrary enumeration of a set)
+            env.vars['_it' + tag.replace('.', '_')] = Builtin(
+                lambda e, q, _itv=itv: _itv.get(q.e if isinstance(q, SV) else (z3.IntVal(q) if isinstance(q, int) else q)), '_it' + tag)
         for k, inv in enumerate(spec.inv):
             self.oblige(self._b(self.spec_truth(inv, env)), 'inv-init:%s:%d' % (tag, k), ln)
         which = self.choose(['iter', 'exit'])
